@@ -221,6 +221,17 @@ def r04e(ck, fb):
     ck.require(good, 'R04e', 'complete_snapshot:keeps-last', b.where(),
                'the removal loop over self.snapshots is not bounded by len()-1: the most recent catalogued snapshot could be deleted before '
                'its successor is catalogued')
+    # ... and that bound is exclusive: no inclusive range / bound+1 built from len()-1 (that would delete snapshots[len-1], the one every
+    # reader uses until the new catalogue is on disk)
+    if subs:
+        incl = [x for x in b.calls(r'RangeInclusive::<Idx>::new$|RangeInclusive') if any(tk.op_tainted(a) for a in x.args)]
+        incl += [st for (i, j, st) in b.stmts() if st.get('rv', {}).get('k') == 'agg' and 'Inclusive' in str(st['rv'].get('adt') or st['rv'].get('def') or '')
+                 and any(tk.op_tainted(o) for o in st['rv']['ops'])]
+        plus = [st for (i, j, st) in b.stmts() if st.get('rv', {}).get('k') == 'bin' and st['rv']['op'] in ('Add', 'AddWithOverflow')
+                and (tk.op_tainted(st['rv']['a']) or tk.op_tainted(st['rv']['b'])) and not st.get('exp')]
+        ck.require(not incl and not plus, 'R04e', 'complete_snapshot:bound-exclusive', b.where(),
+                   'the removal loop runs up to and including snapshots[len-1] (inclusive range or bound+1): the most recent catalogued snapshot is '
+                   'deleted while the on-disk catalogue still names it; a kill before SaveSnapshots lands leaves last_applied pointing at nothing')
     sv = b.calls(r'RaftSnapshotManager::save_snapshot_to_index$')
     rets = b.return_blocks()
     ck.require(bool(sv) and not (set(rets) & cfg.reach_from(b, [0], blocked_blocks={s.bb for s in sv})), 'R04e', 'complete_snapshot:saves-catalogue', b.where(),
@@ -268,7 +279,7 @@ def r04f(ck, fb):
             okr = True
     ck.require(okr, 'R04f', 'RaftIndexInnerManager::init:reader-offset-8', b.where(), 'the catalogue record is not read from offset 8')
     bi = b.calls(r'byte_utils::bin_to_id$')
-    ck.require(len(bi) == 1, 'R04f', 'RaftIndexInnerManager::init:header-read', b.where(), 'last_applied header is not decoded with bin_to_id')
+    ck.require(len(bi) >= 1, 'R04f', 'RaftIndexInnerManager::init:header-read', b.where(), 'last_applied header is not decoded with bin_to_id')
 
 
 def r04g(ck, fb):
@@ -312,7 +323,7 @@ def r04h(ck, fb):
     tl = ck.body(RI + 'RaftIndexManager::try_lock', 'R04h')
     if tl:
         lk = tl.calls(r'FileExt>::try_lock_exclusive$|FileExt::try_lock_exclusive$|try_lock_exclusive$')
-        ck.require(len(lk) == 1, 'R04h', 'try_lock:exclusive', tl.where(), 'the data directory lock is not taken exclusively (try_lock_exclusive)')
+        ck.require(len(lk) >= 1, 'R04h', 'try_lock:exclusive', tl.where(), 'the data directory lock is not taken exclusively (try_lock_exclusive)')
         errs = [i for (i, j, st) in tl.aggregates(r'std::result::Result$', 'Err')]
         ok = False
         for i in errs:
